@@ -327,6 +327,11 @@ Proof.
   constructor; [intros [] | constructor].
 Qed.
 
+Lemma kid_entries_single key f c :
+  kid_entries (Node key None [] f None [c])
+  = map (pre (key_pcs (Node key None [] f None [c]))) (kid_entries c).
+Proof. unfold kid_entries at 1. simpl. rewrite app_nil_r. reflexivity. Qed.
+
 Lemma chain_spec ps : forall fl it nm,
   ps <> [] -> Forall piece_ok ps -> pn ps <= length fl ->
   exists c, chain ps fl it nm = CNode c /\ wf c /\ key_ok (nkey c) /\
@@ -347,8 +352,7 @@ Proof.
     + destruct (IH fl it nm) as (c & Hc & Hw & Hk & He & Hh); [discriminate | exact Hps | exact Hn|].
       rewrite Hc. exists (Node s None [] None None [c]). split; [reflexivity|].
       split; [now apply wf_single|]. split; [split; auto|]. split; [|reflexivity].
-      unfold kid_entries at 1. rewrite paths_node. simpl app. rewrite kids_entries_cons.
-      unfold kids_entries at 1. simpl flat_map. rewrite app_nil_r, He, map_pre_pre.
+      rewrite kid_entries_single, He, map_pre_pre.
       rewrite key_pcs_lit by auto. reflexivity.
   - (* token piece *)
     cbn [chain]. destruct fl as [|f fs]; [simpl in Hn; lia|]. simpl in Hn.
@@ -360,8 +364,7 @@ Proof.
     + destruct (IH fs it nm) as (c & Hc & Hw & Hk & He & Hh); [discriminate | exact Hps | lia|].
       rewrite Hc. exists (Node tok None [] f None [c]). split; [reflexivity|].
       split; [now apply wf_single|]. split; [apply key_ok_tok|]. split; [|reflexivity].
-      unfold kid_entries at 1. rewrite paths_node. simpl app. rewrite kids_entries_cons.
-      unfold kids_entries at 1. simpl flat_map. rewrite app_nil_r, He, map_pre_pre.
+      rewrite kid_entries_single, He, map_pre_pre.
       rewrite key_pcs_tok by reflexivity. reflexivity.
 Qed.
 
